@@ -71,6 +71,8 @@ func scenarios(tier string) []svc.Scenario {
 		// a client reads converter output through a view that was opened before an import extended the stream
 		{Name: "converter-data-through-held-view", Converter: true, Program: []string{"import:P1", "addtag:tag/p=cport:1", "view.open:v1", "converters:tag/p=conv", "import:P3", "view.data:v1=0/conv"}},
 		// a tag that uses a mark list inside a sub-query: a mark edit changes its answer for OTHER streams than the marked ones
+		// a period in which the importer cannot save its reassembly snapshots
+		{Name: "snapshot-directory-gone-for-a-while", Program: []string{"import:P1", "fault:snapdir-gone", "import:P2", "fault:snapdir-back", "import:P3", "import:P4"}},
 		{Name: "subquery-mark-tag", Program: []string{"import:P1+P2", "addtag:mark/m=id:0", "addtag:tag/t=@sub:mark:m id:@sub:id@+1", "markadd:mark/m=1", "markdel:mark/m=0"}},
 		// a converter whose process dies on the first attempt at every stream: the job tries once more
 		{Name: "converter-fails-once", Converter: true, Program: []string{"import:P1", "addtag:tag/p=cport:1", "converters:tag/p=convflaky", "import:P3"}},
@@ -84,6 +86,7 @@ func scenarios(tier string) []svc.Scenario {
 		{Name: "mark-query-edit-then-mark-edit", Prebuilt: []int{5}, Program: []string{"addtag:mark/m=id:0", "addtag:tag/t=mark:m", "updtag:mark/m=id:1", "markadd:mark/m=2", "markdel:mark/m=1"}},
 		{Name: "mark-query-edit-with-converter", Converter: true, Prebuilt: []int{5}, Program: []string{"addtag:mark/m=id:0", "converters:mark/m=conv", "updtag:mark/m=id:1,2", "markdel:mark/m=1"}},
 		// two converters on one tag, both of which die on their first attempt at every stream
+		{Name: "converter-answers-with-unreadable-time-once", Converter: true, Program: []string{"import:P1+P2", "addtag:tag/p=cport:1", "converters:tag/p=convoddtime", "import:P3"}},
 		{Name: "converter-pair-fails-once", Converter: true, Program: []string{"import:P1", "addtag:tag/p=cport:1", "converters:tag/p=convflaky,convflaky2", "import:P3"}},
 		// a tag over a closed id range that imports fill up and pass
 		{Name: "bounded-id-range-tag", Program: []string{"import:P1", "addtag:service/r=id:0:3", "import:P2", "import:P3"}},
